@@ -16,9 +16,10 @@ fn main() {
     }
     install_panic_hook();
     if args[0] == "selftest" {
-        match oracle::selftest() {
-            Ok(()) => {
-                println!("oracle selftest ok");
+        let root = PathBuf::from(std::env::var("VERIF_ROOT").unwrap_or_else(|_| "/verif".into()));
+        match oracle::selftest().and_then(|_| oracle::selftest_table(&root.join("tools/oracle_table.json"))) {
+            Ok(n) => {
+                println!("oracle selftest ok ({} exact values cross-checked against Python fractions to 2^-90)", n);
                 std::process::exit(0)
             }
             Err(e) => {
